@@ -656,6 +656,78 @@ def gen_comparators(report):
     return defs
 
 
+ATOMS_RESET = {
+    "footpathTravelTimeSeconds": ("t", Z), "minAccessTravelTime": ("mn", Z), "maxAccessTravelTime": ("mx", Z),
+    "minEgressTravelTime": ("mn", Z), "maxEgressTravelTime": ("mx", Z),
+    "departureTimeSeconds": ("kdep", Z), "arrivalTimeSeconds": ("karr", Z), "MAX_INT": ("MAX_INT", Z),
+}
+
+
+def gen_resets(report):
+    """Calculator::reset (resets.cpp): the running minimum / maximum of the access and egress walks (conditions, initial
+    values, and that each test is an INDEPENDENT `if`, not the `else` branch of the other) and the seeded labels"""
+    hand = dict(acc_min="(t <? mn)", acc_max="(t >? mx)", egr_min="(t <? mn)", egr_max="(t >? mx)",
+                acc_seed="(kdep + t)", egr_seed="(karr - t)", min_init="MAX_INT", max_init="(- 1)")
+    vals, origin = dict(hand), {k: "hand" for k in hand}
+    indep = dict(acc="true", egr="true")
+    indep_origin = dict(acc="hand", egr="hand")
+    try:
+        src = strip_c_comments(open(os.path.join(REPO, "connection_scan_algorithm/src/resets.cpp")).read())
+        body = fn_body(src, "Calculator::reset(")
+        flat = "".join(body.split())
+        for side, mnv, mxv in (("acc", "minAccessTravelTime", "maxAccessTravelTime"), ("egr", "minEgressTravelTime", "maxEgressTravelTime")):
+            for which, var in (("min", mnv), ("max", mxv)):
+                # the `if (...)` whose body assigns var = footpathTravelTimeSeconds
+                m = re.search(r"(else)?if\(([^{};]*)\)\{?" + var + r"=footpathTravelTimeSeconds;", flat)
+                if not m:
+                    report["fallback"].append("reset_%s_%s: update of %s not found" % (side, which, var))
+                    continue
+                try:
+                    e, _ = translate(m.group(2), ATOMS_RESET, B)
+                    vals["%s_%s" % (side, which)] = e
+                    origin["%s_%s" % (side, which)] = "source"
+                    if m.group(1):
+                        indep[side] = "false"
+                    indep_origin[side] = "source"
+                except Untranslatable as ex:
+                    report["fallback"].append("reset_%s_%s: %s" % (side, which, ex))
+        for key, lhs in (("acc_seed", r"nodesTentativeTime\[accessFootpath\.node\.uid\]"), ("egr_seed", r"nodesReverseTentativeTime\[egressFootpath\.node\.uid\]")):
+            try:
+                e, _ = translate(assignment(body, lhs), ATOMS_RESET, Z)
+                vals[key], origin[key] = e, "source"
+            except (Untranslatable, ValueError) as ex:
+                report["fallback"].append("reset_%s: %s" % (key, ex))
+        inits = {}
+        for var in ("minAccessTravelTime", "maxAccessTravelTime", "minEgressTravelTime", "maxEgressTravelTime"):
+            m = re.search(r"[;{}]" + var + r"=([^;]*);", flat)
+            if m:
+                try:
+                    inits[var] = translate(m.group(1), ATOMS_RESET, Z)[0]
+                except Untranslatable:
+                    pass
+        if len(inits) == 4 and inits["minAccessTravelTime"] == inits["minEgressTravelTime"] and inits["maxAccessTravelTime"] == inits["maxEgressTravelTime"]:
+            vals["min_init"], vals["max_init"] = inits["minAccessTravelTime"], inits["maxAccessTravelTime"]
+            origin["min_init"] = origin["max_init"] = "source"
+        else:
+            report["fallback"].append("reset initial values: %s" % inits)
+    except Exception as e:
+        report["fallback"].append("resets: %s" % e)
+    defs = []
+    for k in ("acc_min", "acc_max", "egr_min", "egr_max"):
+        report["guards"]["reset_" + k] = origin[k]
+        defs.append("Definition gen_reset_%s (t mn mx : Z) : bool :=\n  %s.   (* %s *)" % (k, vals[k], origin[k]))
+    for k in ("acc_seed", "egr_seed"):
+        report["guards"]["reset_" + k] = origin[k]
+        defs.append("Definition gen_reset_%s (kdep karr t : Z) : Z :=\n  %s.   (* %s *)" % (k, vals[k], origin[k]))
+    for k in ("min_init", "max_init"):
+        report["guards"]["reset_" + k] = origin[k]
+        defs.append("Definition gen_reset_%s : Z := %s.   (* %s *)" % (k, vals[k], origin[k]))
+    for side in ("acc", "egr"):
+        report["guards"]["reset_%s_independent" % side] = indep_origin[side]
+        defs.append("Definition gen_reset_%s_tests_independent : bool := %s.   (* %s: neither test is the else-branch of the other *)" % (side, indep[side], indep_origin[side]))
+    return defs
+
+
 def regenerate():
     report = dict(guards={}, fallback=[])
     fsrc = strip_c_comments(open(os.path.join(REPO, "connection_scan_algorithm/src/forward_calculation.cpp")).read())
@@ -672,6 +744,7 @@ def regenerate():
     out += gen_copy("revall", "rev", rsrc, REV_ALL, {k: v for k, v in REV_ARGS.items() if k not in ("acc_reached", "best_time", "best_ok", "tent")},
                     REV_HAND, ATOMS_REV, report)
     out += gen_alt(report)
+    out += gen_resets(report)
     out += gen_entry(report, fsrc, rsrc)
     out += gen_comparators(report)
     text = "\n".join(out) + "\n"
